@@ -150,6 +150,10 @@ def register(reg):
             return [
                 ("delegates_once", ("C17", "C10"), z3.BoolVal(len(evs) == 1)),
                 ("returns_tls_stream", ("C17",), z3.BoolVal(len(evs) == 1 and c.result is not None and hasattr(c.result, "t"))),
+                # from the property (C17 "none lost"): bytes that arrived with the response head and were not read yet belong in
+                # front of whatever the TLS layer reads from the wrapped stream; they are simply left behind here
+                # (design_probes/w4_preexisting/C17_preexisting_1.py) - so the upgrade is loss-free only when there are none
+                ("bytes_received_with_the_head_are_not_left_behind_by_the_tls_upgrade", ("C17",), z3.Length(c.old(c.self, "US._leading_data").t) == 0),
             ]
 
         def callsite(self, c, ev):
